@@ -5,5 +5,5 @@ EXTENDS EntityExpansion, Json
 EmitT == verdict # "run" =>
     PrintT(ToJson([lim |-> IF lim = NoSM THEN -1 ELSE lim, defs |-> defs, doc |-> doc, started |-> started, fatal |-> verdict,
                    text |-> [i \in 1..Len(text) |-> IF text[i] = 0 THEN "d" ELSE <<"a", "b", "c", "d", "e">>[text[i]]],
-                   sites |-> Sites, scns |-> ScnSet, apis |-> ApiSet]))
+                   sites |-> SitesFor(Sites), ext |-> ext, scns |-> ScnSet, apis |-> ApiSet]))
 =============================================================================
